@@ -6,6 +6,7 @@ import (
 
 	"github.com/cockroachdb/errors"
 	"github.com/cockroachdb/errors/errbase"
+	"github.com/cockroachdb/errors/errorspb"
 	"github.com/gogo/protobuf/proto"
 )
 
@@ -241,10 +242,16 @@ func init() {
 	mk := errbase.GetTypeKey((*MultiReg)(nil))
 	errbase.RegisterMultiCauseEncoder(mk,
 		func(_ context.Context, err error) (string, []string, proto.Message) {
-			return err.(*MultiReg).Msg, nil, nil
+			// the wire message is the full text (what a process that does not
+			// know the type displays); the own message travels in the payload.
+			return err.Error(), nil, &errorspb.StringPayload{Msg: err.(*MultiReg).Msg}
 		})
 	errbase.RegisterMultiCauseDecoder(mk,
-		func(_ context.Context, causes []error, msg string, _ []string, _ proto.Message) error {
-			return &MultiReg{Msg: msg, Cs: causes}
+		func(_ context.Context, causes []error, _ string, _ []string, payload proto.Message) error {
+			m, ok := payload.(*errorspb.StringPayload)
+			if !ok {
+				return nil
+			}
+			return &MultiReg{Msg: m.Msg, Cs: causes}
 		})
 }
